@@ -587,6 +587,9 @@ def method_bodies(cx, adt):
     return out
 
 
+MINMAX = ('core::cmp::min', 'core::cmp::max', 'core::cmp::Ord::min', 'core::cmp::Ord::max', 'core::cmp::impls::', 'core::cmp::PartialOrd::')
+
+
 def check_type(run, cx, cfg, adt, only=None):
     short_adt = adt.rsplit('::', 1)[-1]
     specf = spec_bounded if adt == B else spec_fixed
@@ -605,8 +608,16 @@ def check_type(run, cx, cfg, adt, only=None):
         takes_self_ref = self_ty.get('k') == 'ref' and cx.facts.ty(self_ty['inner']).get('path') == adt
         if not takes_self_ref:
             continue      # constructors / consumers are handled separately
+        if tr is None and cx.facts.fns.get(fn, {}).get('pub') is False and fn not in known_fns(cx.facts):
+            # a private helper the reference tree does not have (an operation split into steps): it has no contract of its own
+            # -- its precondition is whatever its callers establish -- and is interpreted as part of each of them
+            direct, offenders = callers_confined(cx.facts, fn, {m['path'] for m in method_bodies(cx, adt)} - {fn})
+            if direct and not offenders:
+                run.note('%s is a new private helper reached only from the methods of %s: examined as part of its callers' % (fn, short_adt))
+                continue
         try:
-            paths = cx.paths(fn)
+            # min / max are piecewise linear: seen through, each piece is a path of its own
+            paths = cx.paths(fn, transparent=MINMAX)
         except T.TooComplex as e:
             run.unproven('rb.method', fn, cfg, str(e), where=where(b))
             continue
@@ -781,6 +792,19 @@ def check_constructors(run, cx, cfg):
                     break
             if not rets:
                 bad = 'no returning path'
+            if not bad and fn.endswith('::from_raw_parts'):
+                # the checked constructor accepts *exactly* the valid states: a path that panics must be one on which the
+                # arguments violate the invariant (a stricter assertion would refuse, say, a full buffer)
+                r0 = [v for v in subterms(rets[0]['ret']) if v[0] == 'agg' and v[1][0] == 'adt' and v[1][1] == adt][0]
+                fields0 = dict(enumerate(r0[2]))
+                for p in ps:
+                    if not (isinstance(p['end'], tuple) and p['end'][0] == 'panic'):
+                        continue
+                    pa = PA(cx, b, p, adt, self_param=0, assume_inv=False, field_terms=fields0)
+                    pa.assume_invariant(lambda i: pa.aff(fields0[i]))
+                    if not pa.poly.unsat():
+                        bad = 'panics for arguments that satisfy the invariant (the checked constructor must accept every valid state) on the path [%s]' % describe_path(p)[:300]
+                        break
             run.check(bad is None, 'rb.constructor', fn, cfg, bad or '', where=where(b), sample={'paths': len(rets)})
         except (Unknown, T.TooComplex) as u:
             run.unproven('rb.constructor', fn, cfg, 'outside the polyhedra domain: %s' % u, where=where(b))
